@@ -129,9 +129,190 @@ fn lower_to_sps_low(executable: zydeco_session::ExecutableProgram) -> Result<zyd
     Ok(zydeco_stackir::SpsLowPipeline::new(&mut lowering_scoped).run(stackir))
 }
 
+/// Input-side trigger of the open product-layout finding, for generated programs: some product type in the program ends
+/// in a type variable (the polymorphic side lays the value out with the variable as ONE field) and some type argument
+/// (of a type application, of a parametric data type, or the witness of a package) is itself a product, so that the
+/// other side lays it out flat. Computed from the program's types only.
+pub fn layout_trigger(program: &e1::ast::Program) -> bool {
+    use e1::ast::{CTy, Comp, Pat, VTy, Val};
+    #[derive(Default)]
+    struct Seen {
+        variable_tail: bool,
+        product_argument: bool,
+    }
+    fn is_product(t: &VTy) -> bool {
+        matches!(t, VTy::Prod(_) | VTy::Named(_))
+    }
+    fn vty(t: &VTy, s: &mut Seen) {
+        match t {
+            | VTy::Int | VTy::Str | VTy::Unit | VTy::Var(_) => {}
+            | VTy::Prod(items) => {
+                if matches!(items.last(), Some(VTy::Var(_))) {
+                    s.variable_tail = true;
+                }
+                items.iter().for_each(|i| vty(i, s));
+            }
+            | VTy::Named(items) => {
+                if matches!(items.last(), Some((_, VTy::Var(_)))) {
+                    s.variable_tail = true;
+                }
+                items.iter().for_each(|(_, i)| vty(i, s));
+            }
+            | VTy::Data(_, args) => {
+                if args.iter().any(is_product) {
+                    s.product_argument = true;
+                }
+                args.iter().for_each(|i| vty(i, s));
+            }
+            | VTy::Thk(c) => cty(c, s),
+            | VTy::Exists(_, body) => vty(body, s),
+        }
+    }
+    fn cty(t: &CTy, s: &mut Seen) {
+        match t {
+            | CTy::Ret(v) => vty(v, s),
+            | CTy::Fun(a, r) => {
+                vty(a, s);
+                cty(r, s);
+            }
+            | CTy::Forall(_, c) | CTy::ForallC(_, c) => cty(c, s),
+            | CTy::Codata(_) | CTy::OS | CTy::Var(_) => {}
+        }
+    }
+    fn pat(p: &Pat, s: &mut Seen) {
+        match p {
+            | Pat::Var(_) | Pat::Wild | Pat::Unit => {}
+            | Pat::Tuple(ps) | Pat::Alias(ps) => ps.iter().for_each(|p| pat(p, s)),
+            | Pat::Ctor(_, _, p) => pat(p, s),
+            | Pat::Rec(fs) => fs.iter().for_each(|(_, p)| pat(p, s)),
+            | Pat::Unpack(_, p, extra) => {
+                pat(p, s);
+                if let Some((_, t)) = extra {
+                    vty(t, s);
+                }
+            }
+        }
+    }
+    fn val(v: &Val, s: &mut Seen) {
+        match v {
+            | Val::Var(_) | Val::Int(_) | Val::Str(_) | Val::Unit => {}
+            | Val::Tuple(vs) => vs.iter().for_each(|v| val(v, s)),
+            | Val::Rec(fs) => fs.iter().for_each(|(_, v)| val(v, s)),
+            | Val::Ctor { targs, arg, .. } => {
+                if targs.iter().any(is_product) {
+                    s.product_argument = true;
+                }
+                targs.iter().for_each(|t| vty(t, s));
+                val(arg, s);
+            }
+            | Val::Thunk(c, t) => {
+                comp(c, s);
+                cty(t, s);
+            }
+            | Val::Proj(head, _, _, t) => {
+                val(head, s);
+                vty(t, s);
+            }
+            | Val::Pack { witness, body } => {
+                if is_product(witness) {
+                    s.product_argument = true;
+                }
+                vty(witness, s);
+                val(body, s);
+            }
+        }
+    }
+    fn comp(c: &Comp, s: &mut Seen) {
+        match c {
+            | Comp::Ret(v) | Comp::Force(v) | Comp::Exit(v) => val(v, s),
+            | Comp::Do { pat: p, bindee, bindee_ty, tail } => {
+                pat(p, s);
+                comp(bindee, s);
+                vty(bindee_ty, s);
+                comp(tail, s);
+            }
+            | Comp::Let { pat: p, val: v, ty, tail } => {
+                pat(p, s);
+                val(v, s);
+                vty(ty, s);
+                comp(tail, s);
+            }
+            | Comp::Fn { pat: p, ty, body } => {
+                pat(p, s);
+                vty(ty, s);
+                comp(body, s);
+            }
+            | Comp::App { fun, arg, arg_ty } => {
+                comp(fun, s);
+                val(arg, s);
+                vty(arg_ty, s);
+            }
+            | Comp::Match { scrut, scrut_ty, arms } => {
+                val(scrut, s);
+                vty(scrut_ty, s);
+                for (p, b) in arms {
+                    pat(p, s);
+                    comp(b, s);
+                }
+            }
+            | Comp::Comatch { arms, .. } => arms.iter().for_each(|(_, b)| comp(b, s)),
+            | Comp::Dtor { head, .. } => comp(head, s),
+            | Comp::Fix { ty, body, .. } => {
+                cty(ty, s);
+                comp(body, s);
+            }
+            | Comp::TyFn { body, .. } => comp(body, s),
+            | Comp::TyAppV { fun, arg } => {
+                if is_product(arg) {
+                    s.product_argument = true;
+                }
+                comp(fun, s);
+                vty(arg, s);
+            }
+            | Comp::TyAppC { fun, arg } => {
+                comp(fun, s);
+                cty(arg, s);
+            }
+            | Comp::Prim(_, args) => args.iter().for_each(|a| val(a, s)),
+            | Comp::If { a, b, res, then, els, .. } => {
+                val(a, s);
+                val(b, s);
+                cty(res, s);
+                comp(then, s);
+                comp(els, s);
+            }
+            | Comp::WriteLine(v, k) => {
+                val(v, s);
+                comp(k, s);
+            }
+            | Comp::Monadic { body, ty, args } => {
+                comp(body, s);
+                cty(ty, s);
+                for (a, t) in args {
+                    val(a, s);
+                    vty(t, s);
+                }
+            }
+        }
+    }
+    let mut seen = Seen::default();
+    for d in &program.decls.data {
+        d.ctors.iter().for_each(|(_, t)| vty(t, &mut seen));
+    }
+    for d in &program.decls.codata {
+        d.dtors.iter().for_each(|(_, t)| cty(t, &mut seen));
+    }
+    comp(&program.body, &mut seen);
+    seen.variable_tail && seen.product_argument
+}
+
 fn run_program(cfg: &Cfg, index: u64, stats: &mut Stats) {
     let program = e1::generate::generate(cfg.seed, "C19", index);
-    let tags = trigger_tags(&program);
+    let mut tags = trigger_tags(&program);
+    if layout_trigger(&program) {
+        tags.push("abstract-tail-of-a-product-instantiated-at-a-product".into());
+        stats.count("programs_with_the_layout_trigger");
+    }
     stats.evaluations += 1;
     let reference = e1::eval::run(&program, 400_000);
     let RefEnd::Exit(code) = reference.end else {
